@@ -86,9 +86,9 @@ def run(ctx):
                 any("Memory" in ed for _, ed, _, _ in x.enum_guards(r"::ExternalKind$")) or any(v.endswith("ExternalKind::Memory") for v in x.fn.vars)
             nm = any(c.endswith("::EXPORT_MEMORY") for c in x.fn.consts) and bool(x.calls(r"PartialEq(<[^>]*>)?>::eq$|::eq$|::contains$"))
             if k:
-                kind_test.append(x.name.rsplit("::", 1)[1])
+                kind_test.append(x.name.rsplit("::", 1)[-1])
             if nm:
-                name_test.append(x.name.rsplit("::", 1)[1])
+                name_test.append(x.name.rsplit("::", 1)[-1])
         ctx.ob("memory-export|predicate-tests-kind", bool(kind_test), f"export kind compared with ExternalKind::Memory in {kind_test}", b.loc())
         ctx.ob("memory-export|predicate-tests-name", bool(name_test), f"export name compared with EXPORT_MEMORY in {name_test}", b.loc())
     ctx.assume("that each step's predicate is the right one for every module, and semantic preservation of instrumentation (C46), are not decided")
